@@ -16,6 +16,7 @@ RULE = ("Valid EML trees mutated at 0-5 independent places, arbitrary trees, fix
         "equality, nodes by identity).  Metamorphic: replacing what lies below each metadata node by other content with "
         "the same 0/1/2+ child count leaves outcome and error list unchanged.  Non-trivial: >= 2 failing nodes at "
         "different depths, or a non-empty metadata subtree; distinct trees by hash.")
+RULE += ('  Sequence clause: after a fail-fast walk has raised, a node earlier in document order is made invalid and the tree is walked again - the result is again what the nodes give one by one.')
 ASSUMPTIONS = [
     "per-node validation (validate.node) is the reference; it is decided by C01-C04",
     "an exception outside the rule-error family counts as 'fails' on both sides (C04's matter), not a C05 violation",
